@@ -56,6 +56,7 @@ let cause = function "eof" -> M.SCEOF | "closing" -> M.SCClosing | _ -> M.SCOthe
    between the two is reported as PARSEDIFF (the wire model and the generator disagree about a record). *)
 module W = Model.Wire
 let parse_diffs : string list ref = ref []
+let ambiguous = ref false
 let proj_err = function None -> None | Some e -> Some (e.Msg.we_code, e.Msg.we_msg)
 let proj_m (m : Msg.jmsg) =
   (Msg.fix_id m.Msg.j_id, m.Msg.j_method, m.Msg.j_params, proj_err m.Msg.j_error, m.Msg.j_result, proj_err m.Msg.j_err)
@@ -77,6 +78,13 @@ let parse_env (f : string list) : M.label =
     M.LFeed (M.FMsg (wire_parse raw (Msg.InMsgs (b01 batch, List.map parse_member (split_on ';' ms)))))
   | ["feed"; "msgeof"; batch; ms; raw] ->
     M.LFeed (M.FMsgEOF (wire_parse raw (Msg.InMsgs (b01 batch, List.map parse_member (split_on ';' ms)))))
+  | ["feed"; "raw"; raw] ->
+    (* an arbitrary record: the wire model alone says what it is.  A member with more than one defect may be
+       reported by Go under any of them (map iteration order): such scenarios are not replayed. *)
+    (match W.split_msgs (hx raw) with
+     | Some (_, raws) -> if List.exists (fun r -> List.length (W.allowed_errs r) > 1) raws then ambiguous := true
+     | None -> ());
+    M.LFeed (M.FMsg (W.parse_msgs (hx raw)))
   | ["feed"; "bad"; raw] -> M.LFeed (M.FMsg (wire_parse raw Msg.InBad))
   | ["feed"; "empty"; raw] -> M.LFeed (M.FMsg (wire_parse raw (Msg.InMsgs (true, []))))
   | ["feed"; "err"; k] -> M.LFeed (M.FErr (cause k))
@@ -192,7 +200,10 @@ let () =
         List.iter (fun x -> Printf.printf "FAULT %s %s\n" !hdr x) (List.rev !faults);
         List.iter (fun x -> Printf.printf "PARSEDIFF %s %s\n" !hdr x) (List.rev !parse_diffs);
         parse_diffs := [];
+        let amb = !ambiguous in
+        ambiguous := false;
         (match !cfg with
+         | _ when amb -> Printf.printf "OK %s skipped: a member with several defects (any of them may be reported)\n" !hdr
          | _ when !policy = "race" ->
            (* racing mode has no windows: the log is judged by the property monitors only *)
            Printf.printf "OK %s race-mode (monitors only)\n" !hdr
